@@ -2,6 +2,7 @@ package PVM
 
 import (
 	"encoding/binary"
+	"math"
 
 	"github.com/New-JAMneration/JAM-Protocol/internal/service_account"
 	"github.com/New-JAMneration/JAM-Protocol/internal/types"
@@ -386,6 +387,13 @@ func invoke(input OmegaInput) (output OmegaOutput) {
 		}
 		innerProgram = &program
 	}
+	// the interpreter's gas counter is signed: a limit above 2^63-1 cannot be spent, the machine runs with
+	// 2^63-1 and the excess is handed back unspent (a negative counter reported out-of-gas at once)
+	var excessGas uint64
+	if g > math.MaxInt64 {
+		excessGas = g - math.MaxInt64
+		g = math.MaxInt64
+	}
 	tempMemory := input.Addition.IntegratedPVMMap[n].Memory
 	// wrap m[n]_p (program),  w (registers),  m[n]_u (memory),   g (gas) into NewHost
 	tempHost := NewHost(innerProgram, w, &tempMemory, Gas(g), HostCallArgs{}, nil)
@@ -398,7 +406,7 @@ func invoke(input OmegaInput) (output OmegaOutput) {
 	// mu* = mu
 	// E_8(g') ++ E_8(w'_0) ++ ... ++ E_8(w'_12)
 	data = types.ByteSequence(make([]byte, offset))
-	binary.LittleEndian.PutUint64(data[:8], uint64(tempHost.Interpreter.Gas))
+	binary.LittleEndian.PutUint64(data[:8], uint64(tempHost.Interpreter.Gas)+excessGas)
 	for i := uint64(1); i < offset/8; i++ {
 		binary.LittleEndian.PutUint64(data[8*i:8*(i+1)], tempHost.Interpreter.Registers[i-1])
 	}
